@@ -5,6 +5,11 @@ ROOT = os.path.dirname(os.path.dirname(os.path.abspath(__file__)))
 BASE_OFF = "cd /repo && env -u BUIDL_VERIF_TRACE /venv/bin/python -m pytest -ra -q -p no:cacheprovider --timeout=900 --continue-on-collection-errors"
 
 CLAIMED = {
+ "C08": dict(
+   text="On a toy prime-order group with a toy HMAC defined in the specification, TLC explores the BIP32 wallet tree as a state machine deriving the private and the public chain in lockstep (public/private consistency in every state, paths to depth 3 over the boundary indexes 0, 1, 2^31-1 and their hardened versions) and exports the complete CKDpriv/CKDpub tables, replayed through HDPrivateKey.child / HDPublicKey.child running on the toy group. On secp256k1 master keys, child steps (HMAC input layout via certified rows, k' = I_L + k mod n with certificates, chain code, fingerprint, depth, child number), all 20 version prefixes through serialise/parse (78-byte layout + Base58Check), path traversals in both notations and cases against step-by-step derivation and the reference path grammar, refusal of hardened public derivation, and xpub blinding are decided by TLC.",
+   design="3/C08",
+   note="Trusted: TLC, BIP32Toy.tla/BIP32Cases.tla (the independent BIP32 implementation is the specification evaluated by TLC), hmac/hashlib rows, the library's scalar multiplication for child public points (C03). Seeds, indexes and paths sampled with the quantifier's boundaries.",
+   technique="TLA+ BIP32 state machine model-checked on a toy group and replayed into rebound code + TLC validation of recorded secp256k1 derivations"),
  "C18": dict(
    text="TLC model-checks the compact-filter object (build, serialise, parse, query) over a toy universe whose hash has collisions: deriving F from the number of distinct hash values is refuted, deriving it from the element count satisfies NoFalseNegative; Golomb-Rice and bit-packing laws are checked over ranges. SipHash-2-4 and MurmurHash3 are transcribed into TLA+ and TLC evaluates them on every message length 0..70 and long elements with random keys / boundary seeds against the library; TLC rebuilds GCS encodings (range mapping, sort, deltas, Golomb-Rice P=19, packing) from the validated hashes, and decides membership (incl. sets constructed to contain a range collision), bloom bit positions, bit field bytes and the filterload payload.",
    design="3/C18",
